@@ -201,10 +201,16 @@ class Randomizer(RandIF):
                 # If the system doesn't solve with hard constraints added,
                 # then we may as well bail now
                 active_randsets = []
+                reset_v = DynamicExprResetVisitor()
                 for rs in ri.randsets():
                     active_randsets.append(rs)
                     for f in rs.all_fields():
                         f.dispose()
+                    # Solver nodes cached by dynamic expressions die with this solver
+                    for c in rs.constraints():
+                        c.accept(reset_v)
+                    for c in rs.soft_constraints():
+                        c.accept(reset_v)
                         
                 if self.solve_fail_debug > 0:
                     raise SolveFailure(
